@@ -16,7 +16,7 @@ func main() {
 	r := ev.Start("C13")
 	defer r.FinishOnPanic()
 	e := &enum.E{R: r}
-	maxN := ev.Pick(r, 14, 40)
+	maxN := ev.Pick(r, 14, 300)
 	ns := []int{}
 	for n := 0; n <= maxN; n++ {
 		ns = append(ns, n)
